@@ -647,7 +647,7 @@ package rsm
 // the block writer reuses its block buffer; a chunk handed to the sink may still be queued when
 // the next block is written, so its data must not live in that buffer
 //@ ghost var gLastChunkData int
-//@ func (cw *ChunkWriter) onNewChunk [C14]
+//@ func (cw *ChunkWriter) onNewChunk [C14 C15]
 //@ trusted hands the chunk to the sink
 //@ ghostset gLastChunkData := ptr(chunk.Data)
 // C08/C15: every chunk of a streamed snapshot identifies the snapshot it belongs to exactly as the
@@ -664,10 +664,10 @@ package rsm
 //@ nobounds
 //@ ensures result.Index == cw.meta.Index && result.Term == cw.meta.Term && result.OnDiskIndex == cw.meta.OnDiskIndex && result.From == cw.meta.From
 //@ ensures result.ChunkCount == pb.LastChunkCount && result.FileChunkCount == pb.LastChunkCount
-//@ func (cw *ChunkWriter) getHeader [C14]
+//@ func (cw *ChunkWriter) getHeader [C14 C15]
 //@ trusted builds a fresh header buffer
 //@ ensures fresh(result) && len(result) > 0
-//@ func (cw *ChunkWriter) onNewBlock [C14]
+//@ func (cw *ChunkWriter) onNewBlock [C14 C15]
 //@ noframe
 //@ nobounds
 //@ requires len(data) + len(crc) < 4611686018427387904
